@@ -961,6 +961,68 @@ theorem legacy_refines_spec_sound_partial (setSrv e : Bool) (d : Doc) (hs : d.se
     · simp only [List.contains_iff_mem, decide_eq_true_eq]
       rw [← hmm]; exact hpm
 
+/- Full statement (false for the code: documented limitation "variable followed by text in the same segment", F-C09-4):
+     a candidate of the spec that declares the method → the legacy router returns a route.
+   What holds: … when no variable of the candidate's template is followed by more text in its segment (document without
+   servers; no trailing slashes, no wildcard, method names without '/' and '{'); the route may be that of another
+   overlapping template (`legacy_match_declared`), a literal one if there is one (`legacy_literal_wins`). -/
+theorem legacy_refines_spec_complete_partial (setSrv e : Bool) (d : Doc) (hs : d.servers = []) (hps : ∀ p ∈ d.paths, p.servers = [])
+    (hb : legacyBuildOK d = true) (ks : List Key) (hks : ∀ k ∈ docKeys d, k ∈ ks) (r : Req)
+    (c : Cand) (hc : c ∈ specCands e d r) (hdecl : c.declares = true)
+    (hmeth : '/' ∉ r.method ∧ '{' ∉ r.method) (hrl : r.path.getLast? ≠ some '/')
+    (ht : c.template.head? = some '/') (htl : c.template.getLast? ≠ some '/')
+    (hnw : NoWildcard (⟨r.method, c.template⟩ : Key).toks) (hvt : varThenLiteral (sparseS c.template) = false) :
+    ∃ t m ps sv, legacyFindOrd setSrv d ks r = .route t m ps sv := by
+  obtain ⟨pd, hpd, hct, hcd, hcase⟩ := spec_cand_server e d r c hc
+  have hfill : ∃ vs, Fills (sparseS pd.template) vs r.path [] := by
+    rcases hcase with ⟨_, _, _, h⟩ | ⟨i, s, hh, _⟩
+    · exact h
+    · rcases hh with ⟨_, hi, _⟩ | ⟨hne, _, _⟩
+      · rw [hs] at hi; simp at hi
+      · exact absurd (hps pd hpd) hne
+  obtain ⟨vs, hgood, p, hp, hpp⟩ := hfill
+  simp only [List.append_nil] at hpp
+  subst hpp
+  have hm : r.method ∈ pd.methods := by
+    rw [hcd] at hdecl
+    simpa [List.contains_iff_mem] using hdecl
+  let k : Key := ⟨r.method, c.template⟩
+  have hk : k ∈ docKeys d := (docKeys_declared d k).2 ⟨pd, hpd, hct.symm, hm⟩
+  have htok : (tokenize k.str).isSome = true := by
+    unfold legacyBuildOK at hb
+    exact List.all_eq_true.1 hb k hk
+  cases hto : tokenize k.str with
+  | none => rw [hto] at htok; simp at htok
+  | some toks =>
+    have hstr : k.str = r.method ++ ' ' :: c.template := rfl
+    have hto' := hto
+    rw [hstr] at hto'
+    obtain ⟨toks', rfl, htl'⟩ := key_toks r.method c.template hmeth.1 hmeth.2 ht htl toks hto'
+    have hktoks : k.toks = Tok.const (r.method ++ [' ']) :: toks' := by
+      show (tokenize k.str).getD [] = _
+      rw [hto]; rfl
+    have hsufs : k.sufs = Suf.const (r.method ++ [' ']) :: toks'.map Tok.suf := by
+      show k.toks.map Tok.suf = _
+      rw [hktoks]; rfl
+    have hnw' : NoWildcard toks' := by
+      intro tk htk n
+      exact hnw tk (by show tk ∈ k.toks; rw [hktoks]; simp [htk]) n
+    rw [← hct] at hp
+    have hreads := reads_of_ssubst _ c.template toks' htl' hnw' hvt vs r.path (fun v hv => (hgood v hv).2) hp
+    have hlast : (r.method ++ ' ' :: r.path).getLast? ≠ some '/' := by
+      cases hpth : r.path with
+      | nil => simp
+      | cons c0 cs0 =>
+        have e0 : r.method ++ ' ' :: (c0 :: cs0) = (r.method ++ [' ']) ++ (c0 :: cs0) := by simp
+        rw [e0, getLast?_append_of_ne_nil _ (by simp), ← hpth]
+        exact hrl
+    have hr : Reads k.sufs vs (stripSlashes (r.method ++ ' ' :: r.path)) := by
+      rw [stripSlashes_id hlast, hsufs]
+      have := Reads.const (r.method ++ [' ']) hreads
+      simpa using this
+    have hsrv : legacyServer d r = some (none, [], r.path) := (legacy_server_none d r [] r.path).2 ⟨hs, rfl, rfl⟩
+    exact legacy_route_complete_partial setSrv d ks r none [] r.path k vs hb hsrv (hks k hk) hr
+
 /-! ## witnesses: inside each exclusion class the modelled code really differs from the spec -/
 
 open W in
@@ -1175,5 +1237,12 @@ open W in
     they fail for /a next to /a/ -/
 example : keyCollision (docKeys dFam) = false ∧ (docKeys dFam).reverse.Perm (docKeys dFam) ∧ keyCollision (docKeys dColl) = true :=
   ⟨by decide +kernel, List.reverse_perm _, by decide +kernel⟩
+
+open W in
+/-- the hypotheses of `legacy_refines_spec_complete_partial` hold for GET /a/zz on d40: the candidate /a/{x} declares GET, its
+    variable ends its segment, the key has no wildcard token -/
+example : legacyBuildOK d40 = true ∧
+    (⟨s "/a/{x}", [(s "x", s "zz")], true, .none⟩ : Cand) ∈ specCands true d40 (req "GET" "/a/zz") ∧
+    varThenLiteral (sparseS (s "/a/{x}")) = false ∧ varThenLiteral (sparseS (s "/books/{id}.json")) = true := by decide +kernel
 
 end KinModel.Props.C09
